@@ -104,7 +104,10 @@ NbrEvents(x, t, k, vs, c) ==
     IF vs = {} THEN {}
     ELSE LET v == CHOOSE y \in vs : \A z \in vs : y <= z
              tt0 == SortSeq(Shifted(Dly(x, v, k), t), LAMBDA a, b : a < b)   \* sorted since the fix of the unsorted-list defect
-             tt == IF stI[v] = "I" /\ v # x THEN FilterGT(tt0, recI[v]) ELSE tt0
+             \* a self-loop (v = x): x has just been marked infected and its recovery time set, so its own attempts
+             \* are filtered against its NEW recovery time t + Dur(x, k)
+             tt == IF v = x THEN FilterGT(tt0, t + Dur(x, k))
+                   ELSE IF stI[v] = "I" THEN FilterGT(tt0, recI[v]) ELSE tt0
          IN (IF Len(tt) > 0 /\ tt[1] < Tmax
              THEN {Ev(tt[1], c, "T", x, v, Tail(tt))} ELSE {})
             \cup NbrEvents(x, t, k, vs \ {v}, c + 1)
